@@ -302,11 +302,17 @@ def rule_const(ctx):
     info = loops[0]
     for kind, val, s, since, visit in info["body_paths"]:
       evs = [w.events[i] for i in s.trace[since:]]
-      sh = as_poly(visit["head"].env.get("state"))
-      st_as = [e for e in evs if e.kind == "assign" and e.data["name"] == "state"]
       a_ = sym.mk("attr", P("param", "self"), "a")
       c_ = sym.mk("attr", P("param", "self"), "c")
-      if len(st_as) == 1 and as_poly(st_as[0].data["value"]) == sym.mk("mod", sh * a_ + c_, sym.mk("pow", Poly.const(2), osz * 2)):
+      # the state by role: the loop-carried variable whose value at the end of the pass is the LCG step of its value at the head
+      st_as, sh = [], None
+      for nm_ in info["modified"]:
+        hv_, ev_ = visit["head"].env.get(nm_), s.env.get(nm_)
+        if isinstance(hv_, Poly) and isinstance(ev_, Poly) and hv_.as_atom() is not None and hv_.as_atom().kind == "sym" and \
+           ev_ == sym.mk("mod", hv_ * a_ + c_, sym.mk("pow", Poly.const(2), osz * 2)):
+          sh = hv_
+          st_as = [e for e in evs if e.kind in ("assign", "augassign") and e.data["name"] == nm_]
+      if sh is not None and len(st_as) == 1 and as_poly(st_as[0].data["value"]) == sym.mk("mod", sh * a_ + c_, sym.mk("pow", Poly.const(2), osz * 2)):
         ok_step = True
         # the output of the step, by value: whatever is turned into bytes and stored into the buffer on this pass
         outs = []
